@@ -12,8 +12,8 @@ class InteractiveBfs:
 
     def __init__(self, graph: CayleyGraph, start_states: AnyStateType):
         self.graph = graph
-        self.cur_layer = graph.encode_states(start_states)
-        self.hashes = [graph.hasher.make_hashes(self.cur_layer)]
+        self.cur_layer, start_hashes = graph.get_unique_states(graph.encode_states(start_states))
+        self.hashes = [start_hashes]
 
     def _remove_seen_states(self, hashes: torch.Tensor) -> torch.Tensor:
         """Returns mask where 0s are at positions in `current_layer_hashes` that were seen previously."""
